@@ -198,15 +198,8 @@ def violation (st : St) (lb nbw : Nat) : TBox → Option String
       if (List.range st.nb).any (fun r => start ≤ r && !st.ps.has r) then
         some (if st.bits.length = nbw then "bits_left_of_bit" else "stale_bits")
       else none
-  | .measure _ de true =>
-    if !st.pp.layers.isEmpty then some "override_after_pp"
-    else if de then some "override_destructive" else none
-  | .measure _ _ false =>
-    if st.bits.length ≠ lb then
-      some (if st.bits.length = nbw then "measure_left_of_bit" else "stale_bits")
-    else none
+  | .measure _ _ true => if !st.pp.layers.isEmpty then some "override_after_pp" else none
   | .discard t => if countW .b t ≠ 0 then some "discard_bit" else none
-  | .swap .b .b => if st.pp.layers.isEmpty && st.ps.has 0 then some "bit_swap_moves_ps" else none
   | _ => none
 
 /-- First violated condition with the index of its layer, along the run of the model. -/
